@@ -217,7 +217,9 @@ partial def gateShapes (inRange : Bool) : Gate → List String
   | .c g => gateShapes true g
   | .kron a b => (if inRange then ["kron-in-range"] else []) ++ gateShapes inRange a ++ gateShapes inRange b
   | .comp _ _ ops => (if inRange then ["multistage-in-range"] else []) ++ subsShapes inRange ops
-  | .loop _ body => (if inRange then ["multistage-in-range"] else []) ++ gateShapes inRange body
+  | .loop k body => (if inRange then ["multistage-in-range"] else []) ++
+      (if k ≥ 3 && (items body (List.range body.nbits) []).isEmpty then ["empty-loop-body"] else []) ++
+      gateShapes inRange body
   | .i => if inRange then ["identity-in-range"] else []
   | _ => []
 where subsShapes (inRange : Bool) : Subs → List String
@@ -227,10 +229,10 @@ where subsShapes (inRange : Bool) : Subs → List String
 def opShape : Op → String
   | .gate g _ =>
     let sh := gateShapes false g
-    (["multistage-in-range", "kron-in-range", "identity-in-range"].find? sh.contains).getD "plain"
+    (["multistage-in-range", "identity-in-range", "kron-in-range", "empty-loop-body"].find? sh.contains).getD "plain"
   | .cond _ _ g _ =>
     let sh := gateShapes true g
-    (["multistage-in-range", "kron-in-range", "identity-in-range"].find? sh.contains).getD "plain"
+    (["multistage-in-range", "identity-in-range", "kron-in-range", "empty-loop-body"].find? sh.contains).getD "plain"
   | .barrier _ => "barrier"
   | .measure .. | .measureAll .. => "measure"
   | .reset _ | .resetAll => "reset"
@@ -255,11 +257,13 @@ partial def gatePanics (inLoop : Bool) : Gate → List Nat → List String
   | _, _ => []
 where subsPanics (inLoop : Bool) : Subs → List Nat → List String
   | .nil, _ => []
-  | .cons g sb rest, bits => gatePanics inLoop g (mapBits bits sb) ++ subsPanics inLoop rest bits
+  | .cons g sb rest, bits =>
+    (if sb.any (· ≥ bits.length) then ["subbit-out-of-range"] else []) ++
+      gatePanics inLoop g (mapBits bits sb) ++ subsPanics inLoop rest bits
 
 def opPanics (nq : Nat) : Op → List String
-  | .gate g bits => (if gateMalformed g bits then ["malformed"] else []) ++ gatePanics false g bits
-  | .cond _ _ g bits => (if gateMalformed g bits then ["malformed"] else []) ++ gatePanics false g bits
+  | .gate g bits => gatePanics false g bits
+  | .cond _ _ g bits => gatePanics false g bits
   | .resetAll => if nq = 0 then ["resetall-no-qubits"] else []
   | .barrier qs => if qs.isEmpty then ["empty-barrier"] else []
   | _ => []
